@@ -1352,6 +1352,108 @@ run_s6(void *arg)
 	vh_fini();
 }
 
+// ---- S7: connections that finish while the listener is busy ---------------------------
+// the listening socket's ADD_PRE callback for the first connection takes its time (30 virtual
+// ms); n more peers connect meanwhile, so their negotiation finishes while no accept is pending.
+// Every one of them must still be accepted (ADD_POST) and carry messages.
+typedef struct s7arg {
+	int tran; // index into S5T: 0 ws 1 tcp 2 ipc 3 inproc
+	int n;    // peers
+} s7arg;
+static int s7_slow_left;
+static void
+s7_notify(nng_pipe p, nng_pipe_ev ev, void *arg)
+{
+	notify(p, ev, arg);
+	if (ev == NNG_PIPE_EV_ADD_PRE && s7_slow_left > 0) {
+		s7_slow_left--;
+		nng_msleep(30);
+	}
+}
+static void
+run_s7(void *arg)
+{
+	s7arg       *x = arg;
+	nng_socket   a, b[4];
+	nng_listener l;
+	char         url[200];
+	vs_tcp_grace_us = 1500;
+	vh_init(0);
+	ledger_reset();
+	VH_OK(nng_pull0_open(&a));
+	SK[0] = a;
+	for (int ev = NNG_PIPE_EV_ADD_PRE; ev <= NNG_PIPE_EV_REM_POST; ev++)
+		VH_OK(nng_pipe_notify(a, ev, s7_notify, (void *) (intptr_t) 0));
+	VH_OK(nng_socket_set_ms(a, NNG_OPT_RECVTIMEO, 100));
+	if (x->tran <= 1) {
+		int port = 0;
+		VH_OK(nng_listen(a, x->tran == 1 ? "tcp://127.0.0.1:0" : "ws://127.0.0.1:0/s7",
+		    &l, 0));
+		VH_OK(nng_listener_get_int(l, NNG_OPT_BOUND_PORT, &port));
+		snprintf(url, sizeof(url),
+		    x->tran == 1 ? "tcp://127.0.0.1:%d" : "ws://127.0.0.1:%d/s7", port);
+	} else {
+		if (x->tran == 2)
+			snprintf(url, sizeof(url), "ipc://%s/c14s7-%d", vx_rundir(),
+			    (int) getpid());
+		else
+			snprintf(url, sizeof(url), "inproc://c14s7");
+		VH_OK(nng_listen(a, url, &l, 0));
+	}
+	s7_slow_left = 1 + vs_choose(VK_ENV, 2); // the first one or two callbacks are slow
+	for (int i = 0; i < x->n; i++) {
+		VH_OK(nng_push0_open(&b[i]));
+		VH_OK(nng_socket_set_ms(b[i], NNG_OPT_SENDTIMEO, 100));
+		VH_OK(nng_dial(b[i], url, NULL, NNG_FLAG_NONBLOCK));
+		if (vs_choose(VK_ENV, 2))
+			vs_settle(); // peers arrive one after the other / all at once
+	}
+	vs_settle();
+	vs_sleep(100);
+	vs_settle();
+	vs_nontrivial();
+	int nposts = count_ev(0, NNG_PIPE_EV_ADD_POST);
+	char ha[80];
+	ledger_summary(0, ha, sizeof(ha));
+	if (nposts != x->n)
+		vs_fail("C14:listener-stopped-accepting",
+		    "%d peers connected over %s while the first ADD_PRE callback(s) slept 30 ms; "
+		    "100 ms later the listening socket has accepted %d of them (events %s)",
+		    x->n, S5T[x->tran], nposts, ha);
+	// every peer's message arrives
+	int seen[4] = { 0, 0, 0, 0 };
+	for (int i = 0; i < x->n; i++) {
+		char t[4] = { 'p', (char) ('0' + i), 0, 0 };
+		if (vh_send_nb(b[i], t, 3) != 0)
+			vs_fail("C14:listener-stopped-accepting", "peer %d cannot send over %s", i,
+			    S5T[x->tran]);
+	}
+	for (int k = 0; k < 2 * x->n; k++) {
+		nng_msg *m;
+		if (nng_recvmsg(a, &m, 0) != 0)
+			break;
+		if (nng_msg_len(m) == 3 && ((char *) nng_msg_body(m))[0] == 'p')
+			seen[(((char *) nng_msg_body(m))[1] - '0') & 3]++;
+		nng_msg_free(m);
+	}
+	for (int i = 0; i < x->n; i++)
+		if (seen[i] != 1)
+			vs_fail("C14:listener-stopped-accepting",
+			    "message of peer %d (of %d, %s) was received %d times", i, x->n,
+			    S5T[x->tran], seen[i]);
+	for (int i = 0; i < x->n; i++)
+		nng_socket_close(b[i]);
+	close_sock(0);
+	vs_settle();
+	vs_sleep(20);
+	vs_settle();
+	ledger_final();
+	vs_outcome("accepted=%d", nposts);
+	if (x->tran == 2)
+		unlink(url + 6);
+	vh_fini();
+}
+
 // ---- driver --------------------------------------------------------------------
 static void
 explore(const char *name, void (*fn)(void *), void *arg, int p, int sw, int t,
@@ -1412,6 +1514,20 @@ main(int argc, char **argv)
 	}
 	explore("S6-reject-busy-reaper-pushpull", run_s6, (void *) (intptr_t) 1, 1, 1, 0, 1);
 	explore("S6-reject-busy-reaper-reqrep", run_s6, (void *) (intptr_t) 2, 1, 1, 0, 1);
+	{
+		static s7arg s7[8];
+		int          n7 = 0;
+		for (int tr = 0; tr < 4; tr++)
+			for (int n = 2; n <= 3; n++) {
+				if (!T && n == 3 && tr != 1)
+					continue;
+				s7[n7].tran = tr;
+				s7[n7].n    = n;
+				snprintf(name, sizeof(name), "S7-accept-burst-%s-n%d", S5T[tr], n);
+				explore(strdup(name), run_s7, &s7[n7], 0, 0, 0, 0);
+				n7++;
+			}
+	}
 	static s4arg s4[] = { { 0 }, { 1 }, { 2 } };
 	static const char *s4n[] = { "S4-accept-pair0", "S4-accept-pull",
 		"S4-accept-rep" };
